@@ -54,6 +54,14 @@ LOWER_GLUE = ["Module::resolve_special_instrumentation: the per-function driver 
 ENCODE_GLUE = "Module::encode_internal (src/ir/module/mod.rs): the call sites of recalculate_ids / fix_op_id_mapping and the per-section emission loops are not under contract, EXCEPT the per-instruction loop of the code section (unit V11, a region of encode_internal): every instruction and every injected instruction goes through fix_op_id_mapping with the three maps before it is emitted"
 V11_EMIT = ["V11_emit.encode_function_body.*", "V11_emit.fn:encode_function_body", "V11_emit.update_ids_and_encode.*", "V11_emit.fn:update_ids_and_encode",
             "V11_emit.fn:InstrumentationFlag::has_instr", "V11_emit.fn:InstrumentationFlag::check_special_is_resolved", "V11_emit.fn:lowered_upto"]
+V12_EXPORTS = ["V12_sections.encode_exports.*", "V12_sections.fn:Module::encode_exports", "V12_sections.fn:ModuleExports::iter"]
+V12_START = ["V12_sections.encode_start.*", "V12_sections.fn:Module::encode_start"]
+V12_DATA = ["V12_sections.encode_data_segments.*", "V12_sections.fn:Module::encode_data_segments"]
+V12_GLOBALS = ["V12_sections.encode_globals.*", "V12_sections.fn:Module::encode_globals", "V12_sections.fn:ModuleGlobals::iter_mut", "V12_sections.fn:Global as GetID::get_id"]
+V12_CUSTOM = ["V12_sections.encode_custom_sections.*", "V12_sections.fn:Module::encode_custom_sections", "V12_sections.fn:CustomSections::iter"]
+V12_TRUST = ["TRUSTED model of the wasm-encoder section builders (V12): an export / data / custom section under construction is the sequence of entries handed to it; ExportKind::from(ExternalKind) is faithful; InitExpr::to_wasmencoder_type is faithful (numeric constants: Kani K4)",
+             "V12 names three expressions of the data loop and one statement of the custom-section loop by rule R11 (iterator adapters / generic builders are outside Verus): their contracts are assumed; V12 assumes the InitInstr::fix_id_mapping contract that V3 proves",
+             "rule R16: the loops / statements are cut out of encode_internal by text anchors and wrapped in declared headers; the side-effect records they also build (C23) are not specified"]
 V11_TRUST = ["TRUSTED model of wasm-encoder (V11): a function body under construction is the sequence of operators handed to Function::instruction; RoundtripReencoder::instruction converts each operator faithfully (the nested fn `encode` is assumed)",
              "V11 assumes the contract of fix_op_id_mapping that unit V3 proves (same clause text); wasmparser's derived Clone for Operator yields an equal value"]
 
@@ -72,7 +80,7 @@ PROPS = {
         "title": "Unmodified round trip preserves module content",
         "units": ["V3_remap", "V9b_conv"],
         "kani": ["k1_valtype_roundtrip", "k1_valtype_roundtrip_exn_cont", "k1_valtype_encoder_matches_upstream", "k4_v128_bytes_preserved", "k4_ieee32_from_float_bits", "k4_ieee64_from_float_bits"],
-        "obligations": ["K:k1_*", "K:k4_*", "V3_remap.lemma.identity_remap_is_noop", "V3_remap.fn:lemma_identity_remap_is_noop", "V3_remap.fix_op_id_mapping.*", "V3_remap.fn:fix_op_id_mapping",
+        "obligations": ["K:k1_*", "K:k4_*", "V3_remap.lemma.identity_remap_is_noop", "V3_remap.fn:lemma_identity_remap_is_noop", "V3_remap.fix_op_id_mapping.*", "V3_remap.fn:fix_op_id_mapping", "V3_remap.update_*", "V3_remap.fn:update_*", "V3_remap.refers_to_*", "V3_remap.fn:refers_to_*",
                         "V9b_conv.*.into_wasmparser.*", "V9b_conv.fn:* as From::from"],
         "glue": ["section order, names, custom-section replay, element / data / table emission are inside parse_internal / encode_internal: not under contract",
                  "InitExpr::eval / to_wasmencoder_type (constant expressions) are not under contract: only the bit-exactness of the float / v128 wrappers they use is proved"],
@@ -112,7 +120,7 @@ PROPS = {
     },
     "C05": {
         "title": "Encoding again without edits gives the same bytes",
-        "units": ["V2_reindex", "V8_lower", "V3_remap"],
+        "units": ["V2_reindex", "V8_lower", "V3_remap", "V12_sections"],
         "obligations": ["V2_reindex.kf.recalculate_ids.reestablishes_id_invariant",
                         "V2_reindex.recalculate_ids.container_is_intended_order", "V2_reindex.fn:recalculate_ids",
                         "V2_reindex.fn:lemma_reorganised_distinct",
@@ -120,48 +128,49 @@ PROPS = {
                         "V8_lower.resolve_function_entry.*", "V8_lower.fn:resolve_function_entry", "V8_lower.resolve_function_exit.*", "V8_lower.fn:resolve_function_exit",
                         # with identity maps (what a second encode must see) the in-place rewrite changes nothing
                         "V3_remap.lemma.identity_remap_is_noop", "V3_remap.fn:lemma_identity_remap_is_noop"],
-        "glue": [ENCODE_GLUE, "Module::resolve_special_instrumentation driver loop (flags are resolved in place)"],
+        "obligations_extra": V12_DATA + ["V12_sections.kf.encode_data_segments.*"],
+        "glue": V12_TRUST + [ENCODE_GLUE, "Module::resolve_special_instrumentation driver loop (flags are resolved in place)"],
         "design_ref": "DESIGN.md §4 V2, §5 C05",
         "level_text": "The re-indexing core is proved to produce the intended order for all inputs; the obligation that a second encode needs (stored ids equal positions again after the call) is a separate obligation that fails on the current code and is listed as known finding F03.",
     },
     "C06": {
         "title": "Function references stay bound to the same function across edits",
-        "units": ["V2_reindex", "V3_remap", "V6_api", "V11_emit"],
+        "units": ["V2_reindex", "V3_remap", "V6_api", "V11_emit", "V12_sections"],
         "obligations": V2_GENERIC + v2_inst("Function", "Functions") + V6_FUNCS + [
             "V3_remap.refers_to_func.*", "V3_remap.fn:refers_to_func", "V3_remap.update_fn_instr.*", "V3_remap.fn:update_fn_instr",
             "V3_remap.fix_op_id_mapping.*", "V3_remap.fn:fix_op_id_mapping", "V3_remap.InitInstr.*", "V3_remap.fn:InitInstr::fix_id_mapping",
             "V3_remap.fn:lemma_families_disjoint"],
-        "obligations_extra": ["V11_emit.fn:encode_function_body", "V11_emit.update_ids_and_encode.*", "V11_emit.fn:update_ids_and_encode"],
-        "glue": V11_TRUST + [ENCODE_GLUE, "export / start / element-segment remapping lines in encode_internal", "'output validates' (wasmparser validator) is not decided"],
+        "obligations_extra": V12_EXPORTS + V12_START + V12_DATA + ["V11_emit.fn:encode_function_body", "V11_emit.update_ids_and_encode.*", "V11_emit.fn:update_ids_and_encode"],
+        "glue": V11_TRUST + V12_TRUST + [ENCODE_GLUE, "export / start / element-segment remapping lines in encode_internal", "'output validates' (wasmparser validator) is not decided"],
         "design_ref": "DESIGN.md §4 V2 V3, §5 C06",
     },
     "C07": {
         "title": "Global references stay bound to the same global across edits",
-        "units": ["V2_reindex", "V3_remap", "V6b_api2", "V11_emit"],
+        "units": ["V2_reindex", "V3_remap", "V6b_api2", "V11_emit", "V12_sections"],
         "obligations": V2_GENERIC + v2_inst("Global", "ModuleGlobals") + V6_GLOBALS + [
             "V3_remap.refers_to_global.*", "V3_remap.fn:refers_to_global", "V3_remap.update_global_instr.*", "V3_remap.fn:update_global_instr",
             "V3_remap.fix_op_id_mapping.*", "V3_remap.fn:fix_op_id_mapping", "V3_remap.InitInstr.*", "V3_remap.fn:InitInstr::fix_id_mapping"],
-        "obligations_extra": ["V11_emit.fn:encode_function_body", "V11_emit.update_ids_and_encode.*", "V11_emit.fn:update_ids_and_encode"],
-        "glue": V11_TRUST + [ENCODE_GLUE, "global export emission; table/element constant expressions", "'output validates' is not decided"],
+        "obligations_extra": V12_GLOBALS + V12_EXPORTS + V12_DATA + ["V11_emit.fn:encode_function_body", "V11_emit.update_ids_and_encode.*", "V11_emit.fn:update_ids_and_encode"],
+        "glue": V11_TRUST + V12_TRUST + [ENCODE_GLUE, "global export emission; table/element constant expressions", "'output validates' is not decided"],
         "design_ref": "DESIGN.md §4 V2 V3, §5 C07",
     },
     "C08": {
         "title": "Memory references stay bound to the same memory across edits",
-        "units": ["V2_reindex", "V3_remap", "V6b_api2", "V11_emit"],
+        "units": ["V2_reindex", "V3_remap", "V6b_api2", "V11_emit", "V12_sections"],
         "obligations": V2_GENERIC + v2_inst("Memory", "Memories") + V6_MEMS + [
             "V3_remap.refers_to_memory.*", "V3_remap.fn:refers_to_memory", "V3_remap.update_memory_instr.*", "V3_remap.fn:update_memory_instr",
             "V3_remap.fix_op_id_mapping.*", "V3_remap.fn:fix_op_id_mapping"],
-        "obligations_extra": ["V11_emit.fn:encode_function_body", "V11_emit.update_ids_and_encode.*", "V11_emit.fn:update_ids_and_encode"],
-        "glue": V11_TRUST + [ENCODE_GLUE, "data-segment memory index and memory export lines in encode_internal", "'output validates' is not decided"],
+        "obligations_extra": V12_EXPORTS + V12_DATA + ["V11_emit.fn:encode_function_body", "V11_emit.update_ids_and_encode.*", "V11_emit.fn:update_ids_and_encode"],
+        "glue": V11_TRUST + V12_TRUST + [ENCODE_GLUE, "data-segment memory index and memory export lines in encode_internal", "'output validates' is not decided"],
         "design_ref": "DESIGN.md §4 V2 V3, §5 C08",
     },
     "C09": {
         "title": "Deletion removes exactly the deleted entity",
-        "units": ["V2_reindex", "V3_remap", "V6_api", "V6b_api2", "V11_emit"],
+        "units": ["V2_reindex", "V3_remap", "V6_api", "V6b_api2", "V11_emit", "V12_sections"],
         "obligations": V2_GENERIC + v2_inst("Function", "Functions") + v2_inst("Global", "ModuleGlobals") + v2_inst("Memory", "Memories") + V6_DELETES + [
             "V3_remap.update_*_instr.*", "V3_remap.fn:update_*_instr", "V3_remap.fn:InitInstr::fix_id_mapping"],
-        "obligations_extra": ["V11_emit.fn:encode_function_body", "V11_emit.update_ids_and_encode.*", "V11_emit.fn:update_ids_and_encode"],
-        "glue": V11_TRUST + [ENCODE_GLUE, "ModuleExports::delete / ModuleImports::delete flags are honoured by emission loops in encode_internal",
+        "obligations_extra": V12_EXPORTS + V12_START + ["V11_emit.fn:encode_function_body", "V11_emit.update_ids_and_encode.*", "V11_emit.fn:update_ids_and_encode"],
+        "glue": V11_TRUST + V12_TRUST + [ENCODE_GLUE, "ModuleExports::delete / ModuleImports::delete flags are honoured by emission loops in encode_internal",
                  "'fails loudly': update_* are proved panic-free exactly when every referenced id has an image; the converse (a missing image panics rather than writing an index) is by inspection of the three `None => panic!` arms"],
         "design_ref": "DESIGN.md §4 V2 V3, §5 C09",
     },
@@ -186,21 +195,23 @@ PROPS = {
     },
     "C28": {
         "title": "Custom sections are preserved and edited exactly",
-        "units": ["V6b_api2"],
+        "units": ["V6b_api2", "V12_sections"],
         "obligations": ["V6b_api2.CustomSections.*", "V6b_api2.fn:CustomSections::*"],
-        "glue": ["parsing custom sections into the collection (name-section exclusion) and emitting them (order) happen in parse_internal / encode_internal: not under contract",
+        "obligations_extra": V12_CUSTOM,
+        "glue": V12_TRUST + ["parsing custom sections into the collection (name-section exclusion) and emitting them (order) happen in parse_internal / encode_internal: not under contract",
                  "CustomSections::get_section_data_mut (Cow::to_mut) and CustomSections::new (iterator adaptor chain) are not under contract"],
         "design_ref": "DESIGN.md §5 C28",
         "level_text": "The collection behaves as a sequence: add appends and returns the new index, delete removes exactly the addressed entry and keeps the order of the others, get_by_id returns exactly the addressed entry; for all contents and ids.",
     },
     "C30": {
         "title": "Module-level additions appear exactly as requested",
-        "units": ["V6b_api2", "V3_remap"],
+        "units": ["V6b_api2", "V3_remap", "V12_sections"],
         "kani": ["k1_valtype_roundtrip", "k1_valtype_roundtrip_exn_cont", "k4_v128_bytes_preserved", "k4_ieee32_from_float_bits", "k4_ieee64_from_float_bits"],
         "kani_thorough": ["k4_initexpr_numeric_const_matches_upstream"],   # ~4 min of CBMC: thorough tier only
         "obligations": ["K:k1_valtype_roundtrip*", "K:k4_*"] + V6_GLOBALS + V6_MEMS + ["V6b_api2.add_data.*", "V6b_api2.fn:Module::add_data", "V6b_api2.ModuleExports.add_export_*", "V6b_api2.fn:ModuleExports::add_export_*",
                         "V3_remap.InitInstr.*", "V3_remap.fn:InitInstr::fix_id_mapping"],
-        "glue": [ENCODE_GLUE, "DataType -> ValType (content type) is abstract here (valtype_of); bit-exactness of constants (InitExpr::to_wasmencoder_type) and the emission of limits / payloads are not under contract at this commit"],
+        "obligations_extra": V12_GLOBALS + V12_EXPORTS + V12_DATA,
+        "glue": V12_TRUST + [ENCODE_GLUE, "DataType -> ValType (content type) is abstract here (valtype_of); bit-exactness of constants (InitExpr::to_wasmencoder_type) and the emission of limits / payloads are not under contract at this commit"],
         "design_ref": "DESIGN.md §5 C30",
     },
     "C29": {
